@@ -601,6 +601,639 @@ def fields_of_captured(h: str):
     return f
 
 
+def reserved_sweep(ctx, rng, pool, pairs):
+    """structured reserved-octet classes (a fixed share of the budget):
+    res-cross    every dictionary block of every reserved field x every value of every other field (one at a time),
+    res-perturb  every octet of every dictionary block set to every value of `octet_values`, on both timeslots
+                 (thorough: x every packet type)."""
+    R = res_dict()
+    thorough = ctx.thorough()
+    typed = [
+        ("ts", list(TS_VALUES.values())), ("pt", list(PACKET_VALUES.values())), ("ct", list(CALL_VALUES.values())),
+        ("st", list(SLOT_VALUES.values())), ("ft", list(FRAME_VALUES.values())), ("cc", list(range(16))),
+        ("seq", [0, 1, 255]), ("dst", [0, 0xFFFFFF]), ("src", [0, 0xFFFFFF]),
+    ]
+
+    def blocks_of(k):
+        bl = R["blocks"][k]
+        if thorough or len(bl) <= 4:
+            return list(bl)
+        return [bl[0]] + rng.sample(bl[1:], 3)  # the default + three captured blocks (all of them in thorough)
+
+    def base():
+        f = gen_frame(rng, pool, wf_bias=1.0)
+        if rng.random() < 0.5:  # the other reserved fields as one captured frame has them
+            for k, v in rng.choice(R["tuples"]).items():
+                set_res(f, k, v)
+        return f
+
+    for k, n in RES_FIELDS:
+        for blk in blocks_of(k):
+            for g, vals in typed:
+                for v in vals:
+                    f = base()
+                    set_res(f, k, blk)
+                    set_typed(f, g, v)
+                    if g in ("st", "ct"):
+                        repick(rng, pool, f)
+                    ctx.count(f"res-cross:{k}")
+                    frame_case(ctx, f, build_frame(f), pairs, "res-cross")
+            for p in range(n):
+                for tsv in TS_VALUES.values():
+                    for ptv in (list(PACKET_VALUES.values()) if thorough else [None]):
+                        f = base()
+                        f["ts"] = tsv
+                        if ptv is not None:
+                            f["pt"] = ptv
+                        orig = bytes.fromhex(blk)[p]
+                        for v in octet_values(orig, f):
+                            f2 = dict(f)
+                            b = bytearray.fromhex(blk)
+                            b[p] = v
+                            set_res(f2, k, b.hex())
+                            ctx.count(f"res-perturb:{k}")
+                            frame_case(ctx, f2, build_frame(f2), pairs, "res-perturb")
+
+
+# ------------------------------------------------------------------------------------------------
+# histories: results the caller keeps, re-stamps and serialises - for every entry point of the property
+#   raw   HyteraIPSC.from_ipsc_bytes(bytes)              kai   HyteraIPSC.from_kaitai(parser object)
+#   braw  Burst.from_hytera_ipsc(bytes)                  bkai  Burst.from_hytera_ipsc(parser object)
+#   ser   HyteraIPSC.as_ipsc_bytes()
+# Every decode must be a function of the octets alone: a NEW object (never one handed out before, never sharing a
+# mutable part with one), reading as the frame encodes whatever was decoded, assigned or serialised before; an
+# object the caller keeps must read as it did (or as the caller re-stamped it) whatever happens to other objects.
+# ------------------------------------------------------------------------------------------------
+ATTRS = (  # public attributes of HyteraIPSC in the order of show_obj, with their range
+    ("call_type", CALL), ("slot_type", SLOT), ("frame_type", FRAME), ("packet_type", PACKET), ("timeslot", TS),
+    ("sequence_number", 256), ("color_code", 16), ("destination_radio_id", 1 << 24), ("source_radio_id", 1 << 24),
+    ("payload", "b33"), ("payload_pad", "b1"), ("first_header", "b2"), ("second_header", "b2"), ("reserved_3", "b3"),
+    ("reserved_7a", "b7"), ("reserved_2a", "b2"), ("reserved_2b", "b2"), ("reserved_1", "b1"),
+)
+ATTR_RANGE = dict(ATTRS)
+ATTR_RES = {"first_header": "first", "reserved_3": "r3", "reserved_7a": "r7", "reserved_2a": "r2a", "reserved_2b": "r2b",
+            "reserved_1": "r1", "payload_pad": "pad"}
+BRIDGE_ATTRS = ("timeslot", "sequence_number", "color_code", "source_radio_id", "destination_radio_id")
+BURST_ATTRS = ("timeslot", "sequence_no", "source_radio_id", "target_radio_id", "full_bits")
+ENTRY = ("raw", "kai", "braw", "bkai")
+
+
+def enum_member(attr: str, idx: int):
+    from okdmr.dmrlib.hytera.ipsc_elements.call_type import CallType
+    from okdmr.dmrlib.hytera.ipsc_elements.frame_type import FrameType
+    from okdmr.dmrlib.hytera.ipsc_elements.packet_type import PacketType
+    from okdmr.dmrlib.hytera.ipsc_elements.slot_type import SlotType
+    from okdmr.dmrlib.hytera.ipsc_elements.timeslot import Timeslot
+
+    cls = {"call_type": CallType, "slot_type": SlotType, "frame_type": FrameType, "packet_type": PacketType, "timeslot": Timeslot}[attr]
+    return getattr(cls, ATTR_RANGE[attr][idx])
+
+
+def layout_obj(frame: bytes):
+    """the 18 attributes a 72-octet frame encodes, read by the layout of the property (not by the library);
+    None when a type value is undefined"""
+    if len(frame) != 72:
+        return None
+    inv = lambda d, v: next((k for k, x in d.items() if x == v), None)  # noqa: E731
+    pt, ct = inv(PACKET_VALUES, frame[8]), inv(CALL_VALUES, frame[62])
+    ts = inv(TS_VALUES, int.from_bytes(frame[16:18], "little"))
+    st = inv(SLOT_VALUES, int.from_bytes(frame[18:20], "little"))
+    ft = inv(FRAME_VALUES, int.from_bytes(frame[22:24], "little"))
+    if None in (pt, ct, ts, st, ft):
+        return None
+    sw = swap16(frame[26:60])
+    return {
+        "call_type": CALL.index(ct), "slot_type": SLOT.index(st), "frame_type": FRAME.index(ft), "packet_type": PACKET.index(pt),
+        "timeslot": TS.index(ts), "sequence_number": frame[4], "color_code": frame[20] & 15,
+        "destination_radio_id": int.from_bytes(frame[64:67], "little"), "source_radio_id": int.from_bytes(frame[68:71], "little"),
+        "payload": sw[:33].hex(), "payload_pad": sw[33:].hex(), "first_header": frame[0:2].hex(), "second_header": frame[2:4].hex(),
+        "reserved_3": frame[5:8].hex(), "reserved_7a": frame[9:16].hex(), "reserved_2a": frame[24:26].hex(),
+        "reserved_2b": frame[60:62].hex(), "reserved_1": frame[71:72].hex(),
+    }
+
+
+def show_mirror(m) -> str:
+    return " ".join((str(m[a]) if str(m[a]) != "" else "-") for a, _ in ATTRS)
+
+
+def parse_shown(s: str):
+    """the mirror of an object from its canonical reading (None for an error / unexpected reading)"""
+    parts = s.split(" ")
+    if is_err(s) or len(parts) != len(ATTRS):
+        return None
+    m = {}
+    for (a, rg), v in zip(ATTRS, parts):
+        m[a] = v if isinstance(rg, str) else int(v) if v.isdigit() else v
+    return m
+
+
+def mirror_bytes(m) -> bytes:
+    """the 72 octets an object with these attribute values stands for, by the layout of the property"""
+    return build_frame({
+        "first": m["first_header"], "second": m["second_header"], "seq": m["sequence_number"], "r3": m["reserved_3"],
+        "pt": PACKET_VALUES[PACKET[m["packet_type"]]], "r7": m["reserved_7a"], "ts": TS_VALUES[TS[m["timeslot"]]],
+        "st": SLOT_VALUES[SLOT[m["slot_type"]]], "ccword": bytes([m["color_code"] * 17] * 2).hex(),
+        "ft": FRAME_VALUES[FRAME[m["frame_type"]]], "r2a": m["reserved_2a"], "burst": m["payload"], "pad": int(m["payload_pad"], 16),
+        "r2b": m["reserved_2b"], "ct": CALL_VALUES[CALL[m["call_type"]]], "dstword": idword(m["destination_radio_id"]),
+        "srcword": idword(m["source_radio_id"]), "r1": m["reserved_1"],
+    })
+
+
+def read_obj(o) -> str:
+    r = call(show_obj, o)
+    return r if isinstance(r, str) else "ERR unreadable"
+
+
+def read_burst(b, with_target: bool):
+    from okdmr.dmrlib.utils.bits_bytes import bits_to_bytes
+
+    def go():
+        return {
+            "cls": cls_name(b), "bits": hx(bits_to_bytes(b.full_bits)), "timeslot": b.timeslot, "seq": b.sequence_no,
+            "src": b.source_radio_id, "target": b.target_radio_id if with_target else None,
+        }
+
+    r = call(go)
+    return r if isinstance(r, dict) else {"unreadable": r}
+
+
+def other_value(rng, attr, cur, pool):
+    """another in-range value for a public attribute (canonical form: member index, int, hex)"""
+    rg = ATTR_RANGE[attr]
+    for _ in range(50):
+        if isinstance(rg, list):
+            v = rng.randrange(len(rg))
+        elif isinstance(rg, int):
+            v = rand_id(rng) if rg == 1 << 24 else rng.choice([0, rg - 1, rng.randrange(rg), rng.randrange(rg)])
+        elif attr == "payload":
+            v = rng.choice(pool["any"] + pool["voice"][:8] + pool["data"][:8]).hex()
+        elif attr == "second_header":
+            v = rng.choice(["5a5a", "5a5a", "a5a5", "0000", bytes(rng.randrange(256) for _ in range(2)).hex()])
+        else:
+            v = draw_res(rng, ATTR_RES[attr])
+        if v != cur:
+            return v
+    return cur
+
+
+def is_oor(attr, val) -> bool:
+    """an assigned value outside the attribute's range (canonical form)"""
+    rg = ATTR_RANGE[attr]
+    if isinstance(rg, list):
+        return False
+    if isinstance(rg, int):
+        return val >= rg
+    return (0 if val == "-" else len(val) // 2) != int(rg[1:])
+
+
+def run_history(frames, inr, steps, window=6):
+    """execute one history on the real code.  frames: list of bytes; inr[i]: frames[i] is in the property's range;
+    steps (JSON-able):  ["dec", entry, frame index, same input object as last time?]  ["set", ref, attribute, value]
+    ["bset", ref, burst attribute, value]  ["ser", ref]  ["read", ref].
+    Returns (model lines with the real code's answers, failures [first only], statistics)."""
+    burst_mod, H, K = L()
+    held = []  # {"o": HyteraIPSC, "b": Burst | None, "m": mirror, "bm": burst reading | None, "at": step, "fi": frame, "tgt": bool, "stamped": bool}
+    lines, kept_octets, inputs, first_answer, bad, aliased = [("h.reset", "ok")], [], {}, {}, [], []
+    stats = {}
+
+    def flag(kind, at, what, expected, actual):
+        bad.append({"kind": kind, "at": at, "what": what, "expected": expected, "actual": actual})
+
+    def check_held(at, refs):
+        for r in refs:
+            e = held[r]
+            cur = read_obj(e["o"])
+            if cur != show_mirror(e["m"]):
+                flag("held-result-changed", at, f"the HyteraIPSC object handed out by step {e['at']} (handle {r}) no longer reads as it did / as the caller "
+                     f"re-stamped it, after step {at} which is not aimed at it", show_mirror(e["m"]), cur)
+                return
+            if e["b"] is not None:
+                if e["b"].hytera_ipsc is not e["o"]:
+                    flag("held-result-changed", at, f"the burst of step {e['at']} no longer keeps the object it decoded", "same object", "another object")
+                    return
+                cur = read_burst(e["b"], e["tgt"])
+                if cur != e["bm"]:
+                    flag("held-result-changed", at, f"the burst handed out by step {e['at']} (handle {r}) no longer reads as it did, after step {at} which is not aimed at it", e["bm"], cur)
+                    return
+
+    for at, st in enumerate(steps):
+        if bad:
+            break
+        kind = st[0]
+        stats[kind] = stats.get(kind, 0) + 1
+        if kind == "dec":
+            _, ep, fi, same = st
+            frame = frames[fi]
+            ent = inputs.get(fi)
+            if ent is None or not same:
+                ent = inputs[fi] = {"bytes": bytes(bytearray(frame))}  # an equal, but new, bytes object
+
+            def go():
+                if ep in ("raw", "braw"):
+                    arg = ent["bytes"]
+                else:
+                    if "k" not in ent:
+                        ent["k"] = K.from_bytes(ent["bytes"])
+                    arg = ent["k"]
+                return (H.from_ipsc_bytes if ep == "raw" else H.from_kaitai)(arg) if ep in ("raw", "kai") else burst_mod.Burst.from_hytera_ipsc(arg)
+
+            STATE["bt"], STATE["opaque_error"] = None, False
+            res = call(go)
+            if is_err(res):
+                if not STATE["opaque_error"]:
+                    lines.append((f"h.{ep} {hx(frame)}", res))
+                if inr[fi]:
+                    flag("decoder-raises", at, f"entry point '{ep}' raised on a well-formed frame", "a result", res)
+                continue
+            b = res if ep in ("braw", "bkai") else None
+            o = res if b is None else b.hytera_ipsc
+            ref = len(held)
+            # two results must never be (or share) one mutable object.  The history goes on: the assignments that follow show
+            # what the sharing does to the values; the sharing itself is reported if nothing else was by the end
+            for r, e in enumerate(held):
+                if aliased:
+                    break
+                if e["o"] is o:
+                    aliased.append((at, f"entry point '{ep}' returned the very HyteraIPSC object that step {e['at']} handed out (handle {r}): "
+                                    "results of two calls share one mutable object", f"the object of step {e['at']}"))
+                elif b is not None and e["b"] is not None and (e["b"] is b or e["b"].full_bits is b.full_bits):
+                    aliased.append((at, f"entry point '{ep}' returned the very burst / payload bit array that step {e['at']} handed out (handle {r})",
+                                    f"the object of step {e['at']}"))
+            got = read_obj(o)
+            want = layout_obj(frame)
+            tgt = bool(want and want["destination_radio_id"])
+            bm = read_burst(b, tgt) if b is not None else None
+            if b is None:
+                answer = got
+            else:
+                i = b.hytera_ipsc
+                answer = "%s %s %s %d %d %d %d %d" % (cls_name(b), bt_name(STATE["bt"]), bm.get("bits"), b.timeslot, b.sequence_no, i.color_code, b.source_radio_id, i.destination_radio_id)
+            lines.append((f"h.{ep} {hx(frame)}", f"{ref} {answer}"))
+            if not bad and inr[fi] and want is not None:
+                if got != show_mirror(want):
+                    flag("decode-depends-on-history", at, f"entry point '{ep}': the decoded frame does not carry the values the 72 octets encode "
+                         "(call slot frame packet timeslot seq colour dst src payload pad headers reserved) - the same octets decode correctly in a fresh history",
+                         show_mirror(want), got)
+                elif b is not None:
+                    wb = {"cls": expected_class({"st": SLOT_VALUES[SLOT[want["slot_type"]]], "ct": CALL_VALUES[CALL[want["call_type"]]]}),
+                          "bits": want["payload"], "timeslot": want["timeslot"] + 1, "seq": want["sequence_number"], "src": want["source_radio_id"],
+                          "target": want["destination_radio_id"] if tgt else None}
+                    if bm != wb:
+                        flag("decode-depends-on-history", at, f"entry point '{ep}': the burst does not carry the class / payload bits / timeslot / sequence / ids the 72 octets encode", wb, bm)
+            key = (ep, fi)
+            if not bad and key in first_answer and first_answer[key] != answer:
+                flag("decode-depends-on-history", at, f"entry point '{ep}' answers differently for the same octets than at step {first_answer[key + ('at',)]}", first_answer[key], answer)
+            if key not in first_answer:
+                first_answer[key] = answer
+                first_answer[key + ("at",)] = at
+            held.append({"o": o, "b": b, "m": parse_shown(got) or want, "bm": bm, "at": at, "fi": fi, "tgt": tgt, "stamped": False})
+            if held[-1]["m"] is None:  # unreadable result: nothing to track
+                held.pop()
+                flag("decode-depends-on-history", at, f"entry point '{ep}' returned an object that cannot be read", "18 attributes", got)
+        elif kind in ("set", "bset", "ser", "read"):
+            ref = st[1]
+            if ref >= len(held):
+                continue
+            e = held[ref]
+            if kind == "set":
+                _, _, attr, val = st
+                cur = getattr(e["o"], attr, None)
+                rg = ATTR_RANGE[attr]
+                octets = None if not isinstance(rg, str) else b"" if val == "-" else bytes.fromhex(val)
+                if octets is not None and isinstance(cur, bytearray) and len(cur) == len(octets):
+                    cur[:] = octets  # a mutable attribute is changed in place
+                else:
+                    setattr(e["o"], attr, enum_member(attr, val) if isinstance(rg, list) else val if isinstance(rg, int) else octets)
+                if is_oor(attr, val):
+                    e["oor"] = True
+                e["m"][attr] = val
+                e["stamped"] = True
+                lines.append((f"h.set {ref} {attr} {val}", "ok"))
+            elif kind == "bset":
+                _, _, attr, val = st
+                if e["b"] is None:
+                    continue
+                if attr == "full_bits":
+                    e["b"].full_bits.invert()  # in place: the caller's own burst
+                    e["bm"]["bits"] = bytes(x ^ 0xFF for x in bytes.fromhex(e["bm"]["bits"])).hex()
+                elif attr == "sequence_no":
+                    e["b"].set_sequence_no(val)
+                    e["bm"]["seq"] = val
+                elif attr == "target_radio_id":
+                    e["b"].target_radio_id = val
+                    e["tgt"] = True
+                    e["bm"]["target"] = val
+                else:
+                    setattr(e["b"], attr, val)
+                    e["bm"]["src" if attr == "source_radio_id" else attr] = val
+            elif kind == "ser":
+                s = call(e["o"].as_ipsc_bytes)
+                out = s if is_err(s) else hx(s)
+                lines.append((f"h.ser {ref}", out))
+                if not is_err(s):
+                    kept_octets.append((s, out, at))
+                want = call(mirror_bytes, e["m"]) if inr[e["fi"]] and not e.get("oor") else None
+                if isinstance(want, bytes):
+                    if is_err(s) or bytes(s) != want:
+                        if e["stamped"]:
+                            flag("reserialise-after-restamp", at, f"the object of step {e['at']} (handle {ref}), re-stamped by the caller with in-range values, does not "
+                                 "serialise to the frame its attributes now describe (original octets with exactly the assigned fields replaced)", want.hex(), out)
+                        else:
+                            flag("reserialise", at, f"the object of step {e['at']} (handle {ref}) does not serialise to the original 72 octets", want.hex(), out)
+            else:
+                lines.append((f"h.read {ref}", read_obj(e["o"])))
+                check_held(at, [ref])
+        if not bad:
+            n = len(held)
+            check_held(at, sorted(set(range(min(2, n))) | set(range(max(0, n - window), n))))
+    if not bad:
+        check_held(len(steps), range(len(held)))
+        for s, out, at in kept_octets:
+            if hx(s) != out:
+                flag("held-result-changed", len(steps), f"the octets returned by as_ipsc_bytes at step {at} changed afterwards", out, hx(s))
+                break
+    if not bad and aliased:
+        at, what, actual = aliased[0]
+        flag("aliased-result", at, what, "a new object", actual)
+    for r, e in enumerate(held):
+        lines.append((f"h.read {r}", read_obj(e["o"])))
+    stats["held"] = len(held)
+    return lines, bad[:1], stats
+
+
+def variants(rng, f):
+    """frames one field away from f (same payload): a cache keyed on part of the octets would confuse them"""
+    out = []
+    names = ["seq", "cc", "dst", "src", "ts", "pt", "ft", "r3", "r7", "r2a", "r2b", "r1", "pad", "first"]
+    if {v: k for k, v in SLOT_VALUES.items()}[f["st"]] in VOICE_SLOTS:
+        names.append("st")
+    for g in rng.sample(names, 3):
+        f2 = dict(f)
+        if g == "seq":
+            f2["seq"] = (f["seq"] + rng.choice([1, 0x40, 255])) & 255
+        elif g == "cc":
+            set_typed(f2, "cc", (f["cc"] + rng.randrange(1, 16)) % 16)
+        elif g in ("dst", "src"):
+            set_typed(f2, g, f[g] ^ (1 << rng.randrange(24)))
+        elif g == "ts":
+            f2["ts"] = 0x3333 - f["ts"]
+        elif g == "pt":
+            f2["pt"] = rng.choice([v for v in PACKET_VALUES.values() if v != f["pt"]])
+        elif g == "ft":
+            f2["ft"] = rng.choice([v for v in FRAME_VALUES.values() if v != f["ft"]])
+        elif g == "st":
+            f2["st"] = rng.choice([SLOT_VALUES[n] for n in sorted(VOICE_SLOTS) if SLOT_VALUES[n] != f["st"]])
+        else:
+            b = bytearray.fromhex(get_res(f, g))
+            b[rng.randrange(len(b))] ^= 1 << rng.randrange(8)
+            set_res(f2, g, b.hex())
+        out.append(f2)
+    return out
+
+
+def constructs(frame: bytes) -> bool:
+    """both burst entry points build the frame (the Burst constructor's own refusals are outside the model)"""
+    for path in ("raw", "kaitai"):
+        line, _, opaque = view(path, frame)
+        if opaque or is_err(line):
+            return False
+    return True
+
+
+def episode_frames(rng, pool, n_other=2, with_errors=False):
+    """[X, three single-field neighbours of X, unrelated generated frames, a captured frame] with in-range flags;
+    with_errors: plus frames some / all entry points refuse (undefined call or slot type: all four; second header
+    other than 5a5a: the two parser-object entry points) - errs maps the frame index to the refusing entry points"""
+    while True:
+        fx = gen_frame(rng, pool, wf_bias=1.0) if rng.random() < 0.6 else fields_of_captured(rng.choice(CAPTURED))
+        if constructs(build_frame(fx)):
+            break
+    fs = [fx] + variants(rng, fx) + [gen_frame(rng, pool, wf_bias=1.0) for _ in range(n_other)] + [fields_of_captured(rng.choice(CAPTURED))]
+    fs = [f for f in fs if constructs(build_frame(f))]
+    frames, inr, errs = [], [], {}
+    for f in fs:
+        fr = build_frame(f)
+        if fr not in frames:
+            frames.append(fr)
+            inr.append(bool(in_range(f)))
+    if with_errors:
+        for what in rng.sample(["ct", "st", "second"], rng.choice([1, 2])):
+            f2 = dict(fx)
+            if what == "ct":
+                f2["ct"] = rng.choice([3, 0x0B, 0x7E, 0xFF])
+            elif what == "st":
+                f2["st"] = rng.choice([0x0001, 0x1112, 0xDDDE, 0xFFFE])
+            else:
+                f2["second"] = rng.choice(["a5a5", "5a5b", "0000"])
+            fr = build_frame(f2)
+            if fr not in frames:
+                errs[len(frames)] = ENTRY if what != "second" else ("kai", "bkai")
+                frames.append(fr)
+                inr.append(False)
+    return frames, inr, errs
+
+
+class Planner:
+    """builds the steps of a history and tracks what each handle will read as (to choose *other* values)"""
+
+    def __init__(self, rng, pool, frames, errs=None):
+        self.rng, self.pool, self.frames, self.errs = rng, pool, frames, errs or {}
+        self.steps, self.m, self.is_burst = [], [], []
+
+    def dec(self, ep, fi, same):
+        self.steps.append(["dec", ep, fi, bool(same)])
+        if ep in self.errs.get(fi, ()):
+            return None  # refused: nothing is handed out
+        self.m.append(dict(layout_obj(self.frames[fi])))
+        self.is_burst.append(ep in ("braw", "bkai"))
+        return len(self.m) - 1
+
+    def set(self, ref, attr, oor_p=0.0):
+        v = other_value(self.rng, attr, self.m[ref][attr], self.pool)
+        rg = ATTR_RANGE[attr]
+        if self.rng.random() < oor_p and not isinstance(rg, list):
+            # a value outside the attribute's range (too long / too short octets, an integer one past the top): the
+            # serialiser's slicing and overflow errors against the model; no oracle for this object from here on
+            if isinstance(rg, int):
+                v = self.rng.choice([rg, rg + 1, rg * 256])
+            else:
+                n = int(rg[1:])
+                v = bytes(self.rng.randrange(256) for _ in range(self.rng.choice([max(0, n - 1), n + 1, n + 2]))).hex() or "-"
+        self.m[ref][attr] = v
+        self.steps.append(["set", ref, attr, v])
+
+    def bset(self, ref, attr):
+        rng = self.rng
+        v = {"timeslot": rng.choice([1, 2]), "sequence_no": rng.randrange(256), "source_radio_id": rand_id(rng),
+             "target_radio_id": 1 + rng.randrange((1 << 24) - 1), "full_bits": "invert"}[attr]
+        self.steps.append(["bset", ref, attr, v])
+
+    def ser(self, ref):
+        self.steps.append(["ser", ref])
+
+    def read(self, ref):
+        self.steps.append(["read", ref])
+
+
+def plan_restamp(rng, pool, frames):
+    """the bridge history: first arrivals of X by every entry point; serialise, re-stamp (all 18 public attributes, or
+    the five a bridge changes), serialise; the same octets again by every entry point (same input object / equal copy);
+    the neighbours of X and unrelated frames; X once more; serialise everything"""
+    p = Planner(rng, pool, frames)
+    eps = list(ENTRY)
+    rng.shuffle(eps)
+    for ep in eps[: rng.choice([1, 2, 4, 4])]:
+        p.dec(ep, 0, False)
+    if rng.random() < 0.5:
+        p.dec(rng.choice(ENTRY), 0, True)
+    n0 = len(p.m)
+    for t in rng.sample(range(n0), rng.choice([1, 1, 2, n0]) if n0 > 1 else 1):
+        p.ser(t)
+        attrs = list(BRIDGE_ATTRS) if rng.random() < 0.4 else [a for a, _ in ATTRS]
+        rng.shuffle(attrs)
+        for a in attrs:
+            p.set(t, a)
+            if rng.random() < 0.15:
+                p.ser(t)
+        p.ser(t)
+        if p.is_burst[t]:
+            for a in rng.sample(BURST_ATTRS, rng.choice([1, 3, 5])):
+                p.bset(t, a)
+    for ep in ENTRY:
+        for same in (True, False):
+            p.dec(ep, 0, same)
+    for fi in range(1, len(frames)):
+        p.dec(rng.choice(ENTRY), fi, False)
+    p.dec(rng.choice(ENTRY), 0, True)
+    for r in range(len(p.m)):
+        p.ser(r)
+    return p.steps
+
+
+def plan_random(rng, pool, frames, n, errs=None):
+    p = Planner(rng, pool, frames, errs)
+    p.dec(rng.choice(ENTRY), 0, False)
+    for _ in range(n):
+        r = rng.random()
+        k = len(p.m)
+        if r < 0.4:
+            p.dec(rng.choice(ENTRY), rng.choice([0, 0, rng.randrange(len(frames))]), rng.random() < 0.5)
+        elif r < 0.7:
+            p.set(rng.randrange(k), rng.choice(ATTRS)[0], oor_p=0.08)
+        elif r < 0.78:
+            bs = [i for i in range(k) if p.is_burst[i]]
+            if bs:
+                p.bset(rng.choice(bs), rng.choice(BURST_ATTRS))
+        elif r < 0.92:
+            p.ser(rng.randrange(k))
+        else:
+            p.read(rng.randrange(k))
+    return p.steps
+
+
+def plan_hold(rng, pool, frames):
+    """many different frames decoded and kept (more than any plausible cache / pool holds), some re-stamped, the first
+    ones decoded again, everything read back at the end"""
+    p = Planner(rng, pool, frames)
+    for fi in range(len(frames)):
+        p.dec(rng.choice(ENTRY), fi, False)
+    for t in rng.sample(range(len(frames)), min(24, len(frames))):
+        for a in rng.sample([a for a, _ in ATTRS], 4):
+            p.set(t, a)
+        if p.is_burst[t]:
+            p.bset(t, rng.choice(BURST_ATTRS))
+    for fi in list(range(min(12, len(frames)))) + rng.sample(range(len(frames)), min(12, len(frames))):
+        p.dec(rng.choice(ENTRY), fi, rng.random() < 0.5)
+    return p.steps
+
+
+def history_probe(ctx, rng, pool, hist_lines):
+    def episode(tag, frames, inr, steps, window=6):
+        lines, bad, stats = run_history(frames, inr, steps, window)
+        hist_lines.extend(lines)
+        ctx.case(("history", tag, [f.hex() for f in frames], steps), nontrivial=True,
+                 sample={"tag": "history:" + tag, "frames": [f.hex() for f in frames[:2]], "steps": steps[:12]} if ctx.hist.get(f"hist:episodes:{tag}", 0) == 1 else None)
+        ctx.count(f"hist:episodes:{tag}")
+        for k, v in stats.items():
+            ctx.count(f"hist:steps:{k}", v)
+        for st in steps:
+            if st[0] == "dec":
+                ctx.count(f"hist:entry:{st[1]}:{'same-input-object' if st[3] else 'equal-copy'}")
+            elif st[0] in ("set", "bset"):
+                ctx.count(f"hist:{st[0]}:{st[2]}")
+                if st[0] == "set" and is_oor(st[2], st[3]):
+                    ctx.count("hist:set:out-of-range value (correspondence only)")
+        for b in bad:
+            ctx.fail(b["kind"], {"history": steps[: b["at"] + 1], "frames": [f.hex() for f in frames], "in_range": inr, "failing_step": b["at"]},
+                     b["what"], expected=b["expected"], actual=b["actual"])
+        return bool(bad)
+
+    found = 0
+    # the captured frames of the demo kind first: wake-up, sync, voice - every entry point, bridge re-stamp
+    for _ in range(ctx.budget(60, 1500)):
+        frames, inr, _ = episode_frames(rng, pool)
+        found += episode("restamp", frames, inr, plan_restamp(rng, pool, frames))
+        if found >= 8:
+            return
+    for _ in range(ctx.budget(40, 1500)):
+        frames, inr, errs = episode_frames(rng, pool, n_other=rng.choice([0, 2, 4]), with_errors=rng.random() < 0.5)
+        found += episode("random", frames, inr, plan_random(rng, pool, frames, rng.choice([20, 40, 80]), errs))
+        if found >= 8:
+            return
+    for _ in range(ctx.budget(1, 6)):
+        frames, inr = [], []
+        want = 300 if not ctx.thorough() else 1200
+        for h in CAPTURED:
+            frames.append(bytes.fromhex(h))
+            inr.append(True)
+        while len(frames) < want:
+            f = gen_frame(rng, pool, wf_bias=1.0)
+            fr = build_frame(f)
+            if fr not in frames and constructs(fr):
+                frames.append(fr)
+                inr.append(bool(in_range(f)))
+        found += episode("hold", frames, inr, plan_hold(rng, pool, frames), window=2)
+
+
+def hold_corpus():
+    """every captured frame decoded by every entry point; the objects are kept by the harness until the end of the run"""
+    burst_mod, H, K = L()
+    kept = []
+    for h in CAPTURED:
+        frame = bytes.fromhex(h)
+        want = layout_obj(frame)
+        for ep in ENTRY:
+            res = call(lambda: H.from_ipsc_bytes(frame) if ep == "raw" else H.from_kaitai(K.from_bytes(frame)) if ep == "kai"
+                       else burst_mod.Burst.from_hytera_ipsc(frame if ep == "braw" else K.from_bytes(frame)))
+            if is_err(res):
+                continue  # reported by the stateless oracle
+            b = res if ep in ("braw", "bkai") else None
+            o = res if b is None else b.hytera_ipsc
+            tgt = bool(want and want["destination_radio_id"])
+            kept.append({"frame": h, "entry": ep, "o": o, "b": b, "tgt": tgt, "first": read_obj(o), "bfirst": read_burst(b, tgt) if b is not None else None})
+    return kept
+
+
+def check_corpus_held(ctx, kept):
+    ids = {}
+    for e in kept:
+        cur = read_obj(e["o"])
+        curb = read_burst(e["b"], e["tgt"]) if e["b"] is not None else None
+        inp = {"frame": e["frame"], "entry": e["entry"], "held_over_run": True}
+        if cur != e["first"] or curb != e["bfirst"]:
+            ctx.fail("held-result-changed", inp, f"the object entry point '{e['entry']}' handed out for a captured frame at the start of the run reads differently at its end "
+                     "(nothing was assigned to it)", expected=[e["first"], e["bfirst"]], actual=[cur, curb])
+            return
+        for x in (e["o"], e["b"], e["b"].full_bits if e["b"] is not None else None):
+            if x is not None and id(x) in ids:
+                ctx.fail("aliased-result", inp, f"entry point '{e['entry']}' handed out a mutable object that another call ({ids[id(x)]}) had handed out before",
+                         expected="a new object per call", actual="one shared object")
+                return
+            if x is not None:
+                ids[id(x)] = f"{e['entry']} {e['frame']}"
+    ctx.count("hist:kept-until-end-of-run", len(kept))
+
+
 def run(ctx):
     patch_burst()
     ctx.rule = (
@@ -613,7 +1246,21 @@ def run(ctx):
         "~20 % leave the range in one respect (undefined type values, colour word with differing nibbles, non-zero low id octet, "
         "second header != 5a5a, payload that does not construct) and, with mutated / truncated / extended frames, only feed the "
         "correspondence. Every frame goes through both decoder paths, the object view, the burst view and the serialiser. "
-        "Distinct = distinct frame octets."
+        "Reserved octets (first header, 3 / 7 / 2 / 2 / 1 reserved, pad) are drawn from a dictionary built from the captured frames' "
+        "actual blocks and the class defaults, from single-octet perturbations of those blocks, or at random; res-cross = every "
+        "dictionary block of every reserved field x every value of every other field (timeslot, packet / call / slot / frame type, "
+        "colour, boundary sequence numbers and ids), res-perturb = every octet of every dictionary block set to boundary values, "
+        "neighbours of the original and the octets of the other fields of the same frame (slot number, sequence, colour, type "
+        "values, id octets), on both timeslots (quick: default + 3 captured blocks per field; thorough: all blocks x packet types). "
+        "Histories (hist:*): for each entry point (from_ipsc_bytes, from_kaitai, Burst.from_hytera_ipsc on bytes / on the parser "
+        "object, as_ipsc_bytes) the same octets are decoded repeatedly (same input object and an equal copy), every result is kept, "
+        "every public attribute of a kept HyteraIPSC (and timeslot / sequence / ids / payload bits of a kept burst) is assigned "
+        "another in-range value, the same octets, single-field neighbours of the frame and unrelated frames are decoded again, objects "
+        "are serialised before and after re-stamping; after every step the kept objects must read as decoded / as re-stamped, every "
+        "decode must be a new object reading as the 72 octets encode (layout of the property), every serialisation must equal the "
+        "layout applied to the object's current attributes; one long history keeps 300 (thorough 1200) distinct frames; all captured "
+        "frames are decoded by every entry point at the start and read back at the end of the run. "
+        "Distinct = distinct frame octets / distinct histories."
     )
     ctx.trusted_base += [
         "Lean 4.33 kernel",
@@ -621,10 +1268,12 @@ def run(ctx):
         "hand-written model Model/Ipsc.lean tied to hytera_ipsc.py, bits_bytes.py, Burst.from_hytera_ipsc and the generated Kaitai parser by this run's correspondence",
         "kaitaistruct and the generated parser ip_site_connect_protocol.py in site-packages (their field map is modelled, not verified)",
         "the Burst constructor is opaque here (C01): the harness records the burst type requested from it",
+        "histories: the model hands out a new handle per decode by construction (Model/Ipsc.lean Heap / HOp); that the real code does is what the history run checks (object identity, reads after foreign assignments)",
     ]
     ctx.assumptions += [
         "the frame carries each 24-bit id in the upper three octets of a little-endian 32-bit word whose low octet is 0, and the colour code as the word cc*0x1111 (all 46 captured frames do)",
         "warnings raised by the _missing_ hooks of PacketType / FrameType are not errors (default warning filters)",
+        "the public attributes of a decoded HyteraIPSC may be assigned by the caller (the class exposes them 'to be possibly changed by implementing party'); a decode or a kept object must not be affected by assignments to another result",
     ]
     rng = ctx.rng
     views, objs, sers, misc = [], [], [], []
@@ -632,6 +1281,8 @@ def run(ctx):
     # corpus: the captured frames of the test-suite (every one failed before 0c42cee on the raw path / serialiser)
     for h in CAPTURED:
         frame_case(ctx, fields_of_captured(h), bytes.fromhex(h), pairs, "captured")
+    # every captured frame decoded by every entry point and KEPT until the end of the run (read back after all other work)
+    long_held = hold_corpus()
     pool = make_pool(rng, 6 if not ctx.thorough() else 40)
     for k, v in pool.items():
         ctx.count(f"pool:{k}", len(v))
@@ -658,6 +1309,11 @@ def run(ctx):
         f["src"] = (s * 65793) & 0xFFFFFF
         f["dstword"], f["srcword"] = idword(f["dst"]), idword(f["src"])
         frame_case(ctx, f, build_frame(f), pairs, "value-sweep")
+    # reserved blocks of the captured frames x the other fields, single-octet perturbations (fixed share of the budget)
+    reserved_sweep(ctx, rng, pool, pairs)
+    # histories: every entry point, results kept / re-stamped / decoded again / serialised
+    hist_lines = []
+    history_probe(ctx, rng, pool, hist_lines)
     n = ctx.budget(2000, 100000)
     for _ in range(n):
         f = gen_frame(rng, pool)
@@ -668,10 +1324,13 @@ def run(ctx):
     # byteswap_bytes on every length 0..70 (odd lengths included), half_byte_to_bytes, build from fields with default reserved octets
     from okdmr.dmrlib.utils.bits_bytes import byteswap_bytes, half_byte_to_bytes
 
+    kept_misc = []  # results of the two helpers, read again at the end
     for ln in list(range(0, 71)) * (1 if not ctx.thorough() else 10):
         d = bytes(rng.randrange(256) for _ in range(ln))
         r = call(byteswap_bytes, d)
         misc.append((f"ipsc.swap {hx(d)}", r if is_err(r) else hx(r)))
+        if not is_err(r):
+            kept_misc.append(("byteswap_bytes", d.hex(), r, hx(r)))
         ctx.case(("swap", d.hex()))
         if not is_err(r):
             r2 = call(byteswap_bytes, r)
@@ -681,6 +1340,8 @@ def run(ctx):
         for k in (0, 1, 2, 3):
             r = call(half_byte_to_bytes, h, k)
             misc.append((f"ipsc.half {h} {k}", r if is_err(r) else hx(r)))
+            if not is_err(r):
+                kept_misc.append(("half_byte_to_bytes", f"{h} {k}", r, hx(r)))
     _, H, _ = L()
     from okdmr.dmrlib.hytera.ipsc_elements.call_type import CallType
     from okdmr.dmrlib.hytera.ipsc_elements.frame_type import FrameType
@@ -707,7 +1368,14 @@ def run(ctx):
         r = call(mk)
         misc.append((f"ipsc.build {ct} {st} {ft} {pt} {ts} {seq} {cc} {dst} {src} {hx(payload)} {hx(pad)}", r if is_err(r) else hx(r)))
         ctx.case(("build", ct, st, ft, pt, ts, seq, cc, dst, src, payload.hex(), pad.hex()))
+    # objects kept over the whole run
+    for fn, arg, r, first in kept_misc:
+        if hx(r) != first:
+            ctx.fail("held-result-changed", {"helper": fn, "argument": arg}, f"the octets returned by {fn} changed while the caller kept them", expected=first, actual=hx(r))
+            break
+    check_corpus_held(ctx, long_held)
     if not ctx.search_only and ctx.driver_ok:
+        ctx.correspond("histories (objects kept, re-stamped, decoded again, serialised)", hist_lines)
         ctx.correspond("Burst.from_hytera_ipsc (both paths)", views)
         ctx.correspond("HyteraIPSC.from_ipsc_bytes / from_kaitai", objs)
         ctx.correspond("HyteraIPSC.as_ipsc_bytes of decoded frames", sers)
@@ -726,7 +1394,44 @@ def replay(obj):
         r = call(lambda: byteswap_bytes(byteswap_bytes(d)))
         print("implementation: byteswap_bytes(byteswap_bytes(", d.hex(), ")) =", r if is_err(r) else r.hex())
         return 0 if r == d else 1
-    if "frame" not in inp:
+    if "history" in inp:
+        frames = [bytes.fromhex(h) for h in inp["frames"]]
+        lines, bad, _ = run_history(frames, inp["in_range"], inp["history"])
+        print("history of", len(inp["history"]), "steps over", len(frames), "frames; model lines / implementation answers:")
+        for line, out in lines[-12:]:
+            print("  ", line[:100], "->", out[:160])
+        if bad:
+            b = bad[0]
+            print("STILL FAILS at step", b["at"], inp["history"][b["at"]] if b["at"] < len(inp["history"]) else "(end)", ":", b["kind"], b["what"])
+            print("  expected:", b["expected"])
+            print("  actual:  ", b["actual"])
+            return 1
+        print("property holds on this history now")
+        return 0
+    if inp.get("held_over_run"):
+        # the object was kept over the whole run: re-run the reduced form (all captured frames by all entry points, kept, read back)
+        class _C:  # minimal stand-in for the context
+            def __init__(self):
+                self.failures, self.hist = [], {}
+
+            def fail(self, kind, input, what, expected=None, actual=None):
+                self.failures.append((kind, what, expected, actual))
+
+            def count(self, k, n=1):
+                pass
+
+        c = _C()
+        kept = hold_corpus()
+        for h in CAPTURED:
+            for path in ("raw", "kaitai"):
+                view(path, bytes.fromhex(h)), obj(path, bytes.fromhex(h)), ser(path, bytes.fromhex(h))
+        check_corpus_held(c, kept)
+        if c.failures:
+            print("STILL FAILS:", *c.failures[0])
+            return 1
+        print("objects kept over a reduced run (captured frames only) read as they did; the full run is needed to reproduce")
+        return 0
+    if "helper" in inp or "frame" not in inp:
         print("nothing to replay")
         return 0
     frame = bytes.fromhex(inp["frame"])
